@@ -292,11 +292,16 @@ class Registry(asset.Registry, alias='posix'):
         release = package.manifest.version
         path = self._path.package(project, release)
         path.parent.mkdir(parents=True, exist_ok=True)
+        # build the package under a temporal name and publish it atomically (the release gets listed by the package path)
+        temp = path.with_name(f'.{path.name}.part')
+        if temp.is_dir():
+            shutil.rmtree(temp)
         if package.path.is_dir():
-            shutil.copytree(package.path, path, ignore=lambda *_: {'__pycache__'})
+            shutil.copytree(package.path, temp, ignore=lambda *_: {'__pycache__'})
         else:
             assert package.path.is_file(), 'Expecting file package'
-            path.write_bytes(package.path.read_bytes())
+            temp.write_bytes(package.path.read_bytes())
+        temp.rename(path)
 
     def read(
         self,
@@ -349,5 +354,8 @@ class Registry(asset.Registry, alias='posix'):
                 raise asset.Level.Invalid(f'State {sid} not staged')
             target = self._path.state(sid, project, release, generation)
             source.rename(target)
-        with path.open('wb') as tagfile:
+        # write the tag under a temporal name and publish it atomically (the generation gets listed by the tag path)
+        temp = path.with_name(f'.{path.name}.part')
+        with temp.open('wb') as tagfile:
             tagfile.write(tag.dumps())
+        temp.rename(path)
